@@ -355,6 +355,35 @@ impl Default for KBucket {
     }
 }
 
+#[cfg(mainline_verif)]
+impl RoutingTable {
+    /// Verification hook: projection of buckets and statistics.
+    pub fn verif_snapshot(&self) -> crate::verif::TableSnap {
+        crate::verif::TableSnap {
+            id: self.id.to_string(),
+            nodes: self
+                .buckets
+                .iter()
+                .flat_map(|(d, b)| {
+                    b.nodes.iter().map(move |n| crate::verif::NodeSnap {
+                        bucket: *d,
+                        id: n.id().to_string(),
+                        addr: n.address().to_string(),
+                        age_ns: crate::verif::node_age_ns(n),
+                    })
+                })
+                .collect(),
+            size: self.size(),
+            is_empty: self.is_empty(),
+            dht_size_estimates_count: self.dht_size_estimates_count as i64,
+            dht_size_estimates_sum: self.dht_size_estimates_sum,
+            responders_samples_count: self.responders_samples_count as i64,
+            responders_size_estimates_sum: self.responders_size_estimates_sum,
+            responders_subnets_sum: self.responders_subnets_sum as i64,
+        }
+    }
+}
+
 #[cfg(test)]
 mod test {
     use std::net::SocketAddrV4;
